@@ -46,7 +46,9 @@ def merge_expressions(exps: BoolExpList) -> BoolExpList:
         e = e.xreplace(emap)
         e = custom_simplify_logic(e)
 
-        if s.name[0:4] != "_ret":
+        # the return bits are called _ret or _ret.<i>...: no identifier of the user's can be (a
+        # variable called _ret_lo or _retx is an ordinary one and may be bound again later)
+        if s.name != "_ret" and not s.name.startswith("_ret."):
             emap[s] = e
         else:
             n_exps.append((s, e))
